@@ -3,6 +3,7 @@ package c17
 import (
 	"bytes"
 	"fmt"
+	"sort"
 	"strings"
 
 	"github.com/zclconf/go-cty/cty"
@@ -162,12 +163,68 @@ func unrelatedType(r *core.Rand) cty.Type {
 	return gen.Type(r, 1+r.Intn(3), gen.TypeOpts{Dynamic: r.Chance(1, 3), TwinKeys: r.Chance(1, 6)}).Cty()
 }
 
+// typeText prints a type like %#v but stops after about 400 characters (the
+// library's GoString is quadratic in the nesting depth).
 func typeText(t cty.Type) string {
-	s := fmt.Sprintf("%#v", t)
-	if len(s) > 400 {
-		s = s[:400] + fmt.Sprintf("...(+%d)", len(s)-400)
+	var sb strings.Builder
+	writeType(&sb, t)
+	if sb.Len() > 400 {
+		return sb.String()[:400] + "...(deeper)"
 	}
-	return s
+	return sb.String()
+}
+
+func writeType(sb *strings.Builder, t cty.Type) {
+	if sb.Len() > 400 {
+		return
+	}
+	switch {
+	case t == cty.NilType:
+		sb.WriteString("cty.NilType")
+	case t.IsListType(), t.IsSetType(), t.IsMapType():
+		switch {
+		case t.IsListType():
+			sb.WriteString("cty.List(")
+		case t.IsSetType():
+			sb.WriteString("cty.Set(")
+		default:
+			sb.WriteString("cty.Map(")
+		}
+		writeType(sb, t.ElementType())
+		sb.WriteString(")")
+	case t.IsTupleType():
+		sb.WriteString("cty.Tuple([")
+		for i, et := range t.TupleElementTypes() {
+			if i > 0 {
+				sb.WriteString(", ")
+			}
+			writeType(sb, et)
+		}
+		sb.WriteString("])")
+	case t.IsObjectType():
+		sb.WriteString("cty.Object({")
+		ats := t.AttributeTypes()
+		opt := t.OptionalAttributes()
+		names := make([]string, 0, len(ats))
+		for k := range ats {
+			names = append(names, k)
+		}
+		sort.Strings(names)
+		for i, k := range names {
+			if i > 0 {
+				sb.WriteString(", ")
+			}
+			fmt.Fprintf(sb, "%q", k)
+			if _, o := opt[k]; o {
+				sb.WriteString("?")
+			}
+			sb.WriteString(": ")
+			writeType(sb, ats[k])
+		}
+		sb.WriteString("})")
+	default:
+		sb.WriteString(t.GoString())
+	}
 }
 
 // ---------------------------------------------------------------------------
@@ -321,6 +378,14 @@ func nestType(kind int, d int, leaf cty.Type) cty.Type {
 	return t
 }
 
+// jsonDeepBudget bounds depth x length for documents given to the JSON value decoder.
+func jsonDeepBudget(thorough bool) int64 {
+	if thorough {
+		return 20_000_000
+	}
+	return 6_000_000
+}
+
 var kindName = []string{"list", "tuple", "set", "object", "map"}
 
 // deepDoc draws one deep-nesting document. maxLen bounds the input size; the
@@ -355,9 +420,12 @@ func deepDoc(r *core.Rand, maxLen int, thorough bool) deepCase {
 				d /= 2
 			}
 		}
+		if kind == 2 && withTarget && !dynamic && d > 10 {
+			d = 6 + r.Intn(5) // building nested sets takes time exponential in the depth (see NOTES.md)
+		}
 		n := d*len(open+clos) + pad + 8
 		if withTarget {
-			for d > 8 && int64(d)*int64(n) > 20_000_000 {
+			for d > 8 && int64(d)*int64(n) > jsonDeepBudget(thorough) {
 				d /= 2
 				n = d*len(open+clos) + pad + 8
 			}
@@ -411,6 +479,9 @@ func deepDoc(r *core.Rand, maxLen int, thorough bool) deepCase {
 	}
 	if withTarget && d > 5000 {
 		d = 5000 // the harness' own validity walk builds a path string per level
+	}
+	if kind == 2 && withTarget && !dynamic && d > 10 {
+		d = 6 + r.Intn(5) // nested sets: exponential time in the library
 	}
 	leaf := [][]byte{{0xc0}, {0x01}, {0xa1, 'x'}, {0xc3}, {0x90}, {0x80}, {0xd4, 0, 0}}[r.Intn(7)]
 	var b bytes.Buffer
